@@ -8,6 +8,7 @@ import (
 	"fmt"
 	"io"
 	"net"
+	"reflect"
 	"syscall"
 	"testing"
 	"time"
@@ -26,15 +27,15 @@ type c18stub struct {
 }
 
 func (t *c18stub) Connect() (string, error)     { return "", nil }
-func (t *c18stub) DoesStartTLS() bool            { return false }
-func (t *c18stub) StartTLS() error               { return nil }
-func (t *c18stub) LogTraffic(io.Writer)          {}
-func (t *c18stub) StartStream() (string, error)  { return "", nil }
-func (t *c18stub) GetDecoder() *xml.Decoder      { return nil }
-func (t *c18stub) IsSecure() bool                { return false }
-func (t *c18stub) Read(p []byte) (int, error)    { return 0, io.EOF }
-func (t *c18stub) Write(p []byte) (int, error)   { return len(p), nil }
-func (t *c18stub) ReceivedStreamClose()          {}
+func (t *c18stub) DoesStartTLS() bool           { return false }
+func (t *c18stub) StartTLS() error              { return nil }
+func (t *c18stub) LogTraffic(io.Writer)         {}
+func (t *c18stub) StartStream() (string, error) { return "", nil }
+func (t *c18stub) GetDecoder() *xml.Decoder     { return nil }
+func (t *c18stub) IsSecure() bool               { return false }
+func (t *c18stub) Read(p []byte) (int, error)   { return 0, io.EOF }
+func (t *c18stub) Write(p []byte) (int, error)  { return len(p), nil }
+func (t *c18stub) ReceivedStreamClose()         {}
 func (t *c18stub) Ping() error {
 	vrt.Yield("ping")
 	t.pings = append(t.pings, vrt.VNow())
@@ -51,6 +52,21 @@ func (t *c18stub) Close() error {
 	return nil
 }
 
+// The loop scenarios call the library's keepalive function directly. Its parameter list is the library's business:
+// the call goes through reflection, and when the parameters are not (transport, interval, quit channel) any more
+// the loop scenarios step aside (the client-level scenarios, which go through Connect/Resume, do not depend on it).
+func c18keepaliveCallable() bool {
+	ft := reflect.TypeOf(keepalive)
+	return ft.Kind() == reflect.Func && ft.NumIn() == 3 && !ft.IsVariadic() &&
+		reflect.TypeOf(&c18stub{}).AssignableTo(ft.In(0)) &&
+		ft.In(1) == reflect.TypeOf(time.Duration(0)) &&
+		reflect.TypeOf((<-chan struct{})(nil)).AssignableTo(ft.In(2))
+}
+
+func c18callKeepalive(st *c18stub, interval time.Duration, quit chan struct{}) {
+	reflect.ValueOf(keepalive).Call([]reflect.Value{reflect.ValueOf(st), reflect.ValueOf(interval), reflect.ValueOf((<-chan struct{})(quit))})
+}
+
 // (a) the keepalive loop itself against a recording transport
 func c18loop(interval time.Duration, failAt int, quitTick int, quitDelta time.Duration) func() {
 	return func() {
@@ -58,7 +74,7 @@ func c18loop(interval time.Duration, failAt int, quitTick int, quitDelta time.Du
 		quit := make(chan struct{})
 		finished := false
 		vrt.Go("keepalive", func() {
-			keepalive(st, interval, quit)
+			c18callKeepalive(st, interval, quit)
 			finished = true
 		})
 		end := time.Duration(quitTick)*interval + quitDelta
@@ -191,6 +207,58 @@ func c18client(intervalS int64, mode0 string, k int, delta time.Duration) func()
 			vrt.Sleep(3 * interval)
 			vrt.WaitIdle()
 			return // the verdict function reports a panic
+		}
+		if mode == "pingfail-twice" {
+			// session 1: the first keepalive cannot be written; the keepalive closes the connection, which (the server
+			// being silent) waits for the close time-out. One second later the server's end goes away, the loss is
+			// reported and the application resumes: session 2 runs on the same transport while that first Close is
+			// still waiting. Its first keepalive fails too: its connection must be closed and its loss reported.
+			fail := func(c *vnet.Conn, p []byte) (int, error) { return 0, errors.New("write: broken pipe") }
+			conn.raw.Peer().WriteFault = func(c *vnet.Conn, p []byte) (int, error) {
+				if string(p) == "\n" || nPing > 0 {
+					nPing++
+					return fail(c, p)
+				}
+				return -1, nil
+			}
+			vrt.Sleep(interval + time.Second)
+			conn.close()
+			vrt.WaitIdle()
+			if err := s.cl.Resume(); err != nil {
+				vrt.Fail("C18|harness|reconnect", "%v", err)
+				return
+			}
+			vrt.WaitIdle()
+			c1 := s.conn(1)
+			if c1 == nil {
+				vrt.Fail("C18|harness|no-second-connection", "")
+				return
+			}
+			n2 := 0
+			c1.raw.Peer().WriteFault = func(c *vnet.Conn, p []byte) (int, error) {
+				if string(p) == "\n" || n2 > 0 {
+					n2++
+					return fail(c, p)
+				}
+				return -1, nil
+			}
+			vrt.Sleep(interval + 40*time.Second) // the failure, then at most two close time-outs
+			vrt.WaitIdle()
+			vrt.Quiet(true)
+			cfg := fmt.Sprintf("interval=%s mode=%s", interval, mode)
+			nDisc := 0
+			for _, ev := range s.events {
+				if ev.State.state == StateDisconnected {
+					nDisc++
+				}
+			}
+			if !c1.raw.PeerClosed() {
+				vrt.Fail("C18|dead-connection-not-closed|second-session", "%s: the first keepalive of the second session could not be written, but its connection was never closed (a Close of the first session's connection was still waiting for the server)", cfg)
+			}
+			if nDisc != 2 || len(s.errs) != 2 {
+				vrt.Fail("C18|loss-not-reported-once|second-session", "%s: two sessions lost: %d error callbacks, %d Disconnected events", cfg, len(s.errs), nDisc)
+			}
+			return
 		}
 		if mode == "drop-resume-from-handler" {
 			// the reconnection is made from inside the Disconnected handler, as StreamManager does: the receive
@@ -367,7 +435,12 @@ func TestVerifC18(t *testing.T) {
 	if hx.Thorough() {
 		bound = 3
 	}
-	for _, iv := range []time.Duration{time.Millisecond, time.Second, 30 * time.Second} {
+	loopIntervals := []time.Duration{time.Millisecond, time.Second, 30 * time.Second}
+	if !c18keepaliveCallable() {
+		hx.Symbol("keepalive-signature-changed")
+		loopIntervals = nil
+	}
+	for _, iv := range loopIntervals {
 		for failAt := 0; failAt <= 4; failAt++ {
 			for tick := 0; tick <= 4; tick++ {
 				for _, d := range []time.Duration{-1, 0, 1} {
@@ -400,6 +473,9 @@ func TestVerifC18(t *testing.T) {
 		}
 		for _, d := range []time.Duration{-time.Millisecond, 0} {
 			scs = append(scs, hx.Scenario{Name: fmt.Sprintf("client/interval=%ds/drop-refused-resume%+d", ivs, d), Opt: vrt.Options{Bound: c18rb + 1, Horizon: 100000, TouchOn: []string{"conn"}}, Body: c18client(ivs, "drop-refused-resume", 1, d), Verdict: c18verdict})
+		}
+		if ivs > 0 {
+			scs = append(scs, hx.Scenario{Name: fmt.Sprintf("client/interval=%ds/pingfail-twice", ivs), Opt: vrt.Options{Bound: 1, Horizon: 100000}, Body: c18client(ivs, "pingfail-twice", 1, 0), Verdict: c18verdict})
 		}
 		scs = append(scs, hx.Scenario{Name: fmt.Sprintf("client/interval=%ds/hook-fails-reconnect", ivs), Opt: vrt.Options{Bound: 1, Horizon: 100000}, Body: c18client(ivs, "hook-fails-reconnect", 2, 0), Verdict: c18verdict})
 		scs = append(scs, hx.Scenario{Name: fmt.Sprintf("client/interval=%ds/idle", ivs), Opt: vrt.Options{Bound: 1, Horizon: 100000}, Body: c18client(ivs, "idle", 2, 0), Verdict: c18verdict})
